@@ -163,6 +163,13 @@ def run(ctx, res):
     while blk.get("k") == "blockexpr":
         blk = blk["block"]
     tail = T.peel(blk["tail"]) if blk.get("tail") is not None else {}
+    if T.local_of(tail) is not None:
+        # `let merged = tokens.into_iter().fold(..); debug_assert!(..); merged`: the value that was given a name is returned
+        defs = [s_ for s_ in blk.get("stmts", []) if s_.get("k") == "let" and s_["pat"].get("p") == "bind" and s_["pat"]["id"] == T.local_of(tail) and s_.get("init") is not None
+                and "Mut" not in s_["pat"].get("mode", "")]
+        touched = [x for x in T.nodes(b["tree"], "mcall") if T.local_of(T.peel_ref(x["recv"])) == T.local_of(tail) and "ref_mut" in (x["recv"].get("adj") or [])]
+        if len(defs) == 1 and not touched:
+            tail = T.peel(defs[0]["init"])
     seed_txt = ""
     if tail.get("k") == "mcall" and tail["name"] == "fold":
         sd = T.peel(tail["args"][0])
